@@ -231,7 +231,11 @@ def run_case(case, wd, sessions=None):
         if frule is not None:
             tag = f"{call['h']}|{call['key']!r}"
             attempts[tag] = attempts.get(tag, 0) + 1
-            o = "fail" if (world["faults_on"] and attempts[tag] <= frule.get(tag, 0)) else "ok"
+            rule = frule.get(tag, 0)
+            if isinstance(rule, (list, tuple)):        # ["partial", n]: the first n attempts fail after a first step
+                o = ("partial", 1) if (world["faults_on"] and attempts[tag] <= rule[1]) else "ok"
+            else:
+                o = "fail" if (world["faults_on"] and attempts[tag] <= rule) else "ok"
         if ftypes is not None and o != "ok":
             lt = "_".join(call["h"].split("_")[1:-1])
             if lt not in ftypes:
